@@ -1,5 +1,6 @@
 from __future__ import annotations
 
+import dataclasses
 import logging
 from collections import defaultdict
 from pathlib import Path
@@ -1002,7 +1003,8 @@ class StubsStringGenerator:
                     alias = qualified_import.alias
 
             if alias:
-                node.name = alias
+                # Render the element under its alias without renaming the object of the API model
+                node = dataclasses.replace(node, name=alias)
 
             self.reexport_modules[shortest_reexport_module_id].append(node)
             return True
